@@ -11,7 +11,8 @@ Init == e \in Eps /\ p \in Pas /\ l \in Laws /\ f \in Fixes /\ m \in Modes /\ cx
         \* frames whose outer isophotes cross the border are fitted with every integration mode but no fix flags; the large frame
         \* (model images of large ellipses) with bilinear sampling and all parameters free
         /\ (fr \in {"nearleft", "nearbottom", "largeleft", "largebottom"} => (f = "none" /\ m \in {"bilinear", "mean", "median"} /\ e <= 50 /\ st = "near"))
-        /\ (fr = "large" => (f = "none" /\ m = "bilinear" /\ e <= 50 /\ st = "near"))
+        /\ (fr = "large" => (f = "none" /\ m = "bilinear" /\ ((e <= 50 /\ st = "near") \/ (e = 80 /\ st = "round"))))
+        /\ (st = "round" => (fr = "large" /\ l \in {"exp", "sersic"}))      \* (measured: from these guesses the flat Gaussian core is outside the basin)
         /\ (m \in {"mean", "median"} => f = "none")
         /\ (m = "linear_geometry" => (f = "none" /\ fr = "square" /\ st = "near" /\ e <= 50))
 Observe == ~done /\ done' = TRUE /\ UNCHANGED <<e, p, l, f, m, cx, fr, st>>
